@@ -1,4 +1,4 @@
-(* C14 — facts about the REGENERATED settings trees (Generated/SettingsGen.v), closed by vm_compute. *)
+(* C14 — decision procedures over the REGENERATED settings trees (Generated/SettingsGen.v); no computation here. *)
 From Coq Require Import ZArith QArith List Bool String.
 From V Require Import Model.Settings Generated.SettingsGen.
 Import ListNotations.
@@ -17,16 +17,19 @@ Definition locks_ok (c : string) : bool :=
 Definition domains_ok (c : string) : bool :=
   match class_tree c with Some t => domains_eqb (flat_domains t) (approved_dom_of c) | None => false end.
 
-Lemma defaults_all : forallb defaults_ok top_classes = true.
-Proof. vm_compute. reflexivity. Qed.
-Lemma locks_all : forallb locks_ok locked_families = true.
-Proof. vm_compute. reflexivity. Qed.
-Lemma domains_all : forallb domains_ok top_classes = true.
-Proof. vm_compute. reflexivity. Qed.
+(* a finite enumeration closed by computation, lifted to the quantified statement; the computations themselves
+   (forallb ... = true by vm_compute) are done in Properties/C14.v so that a regenerated tree that breaks one of
+   them fails THERE, after the generic theorems have been re-checked *)
+Lemma lift_forallb : forall (f : string -> bool) l, forallb f l = true -> forall c, In c l -> f c = true.
+Proof. intros f l H c Hc. exact (proj1 (forallb_forall f l) H c Hc). Qed.
 
-Lemma defaults_are_approved_l : forall c, In c top_classes -> defaults_ok c = true.
-Proof. intros c H. exact (proj1 (forallb_forall _ _) defaults_all c H). Qed.
-Lemma every_method_constant_is_dev_locked_l : forall c, In c locked_families -> locks_ok c = true.
-Proof. intros c H. exact (proj1 (forallb_forall _ _) locks_all c H). Qed.
-Lemma domains_are_approved_l : forall c, In c top_classes -> domains_ok c = true.
-Proof. intros c H. exact (proj1 (forallb_forall _ _) domains_all c H). Qed.
+(* every leaf of the three locked trees x the model-side alternatives: exhaustive, inside Coq *)
+Definition singles_ok (c : string) : bool :=
+  match class_tree c with Some t => all_single_overrides_ok reg t | None => false end.
+
+(* hourly trees: no developer flags, no lock (vacuous there); defaults and validity still compared above *)
+Definition unlocked_ok (c : string) : bool :=
+  match class_tree c with
+  | Some t => negb (has_lock t) && forallb (fun x => negb (ldev (snd x))) (leaves_of_root t)
+  | None => false
+  end.
